@@ -246,8 +246,9 @@ def run(ctx):
         if not exp:
             continue
         evs = [json.loads(l) for l in open(r['values'])][1:]
-        for ev, ex in zip(evs, exp):
-            if bool(ev['raised']) != ex['raised']:
+        for ev in evs:
+            ci = int(ev['id'].split(':')[-1])
+            if ci < len(exp) and bool(ev['raised']) != exp[ci]['raised']:
                 mism += 1
     ctx.extra['replayed_model_behaviours'] = len(behs)
     ctx.extra['outcome_mismatches_with_model'] = mism
